@@ -425,6 +425,10 @@ func (mr *msgReader) Read(p []byte) (n int, err error) {
 	// The message ends cleanly only once the final frame has been consumed completely.
 	// An EOF from the transport in the middle of a message must not be mistaken for it.
 	if mr.fin && mr.payloadLength == 0 && (errors.Is(err, io.EOF) || errors.Is(err, io.ErrUnexpectedEOF) && mr.flate) {
+		if mr.limitReader.n == 0 {
+			// The byte of look-ahead was used up as well: the message is one byte over the limit.
+			return n, fmt.Errorf("failed to read: %w", mr.limitReader.tooBig())
+		}
 		mr.putFlateReader()
 		return n, io.EOF
 	}
@@ -504,15 +508,19 @@ func (lr *limitReader) reset(r io.Reader) {
 	lr.r = r
 }
 
+func (lr *limitReader) tooBig() error {
+	err := fmt.Errorf("read limited at %v bytes", lr.limit.Load())
+	lr.c.writeError(StatusMessageTooBig, err)
+	return err
+}
+
 func (lr *limitReader) Read(p []byte) (int, error) {
 	if lr.n < 0 {
 		return lr.r.Read(p)
 	}
 
 	if lr.n == 0 {
-		err := fmt.Errorf("read limited at %v bytes", lr.limit.Load())
-		lr.c.writeError(StatusMessageTooBig, err)
-		return 0, err
+		return 0, lr.tooBig()
 	}
 
 	if int64(len(p)) > lr.n {
